@@ -38,6 +38,10 @@ ROWS = [
     # strings.yaml getConstStringPtrLen / cstatements.rst "final": a caller-owned result whose text is copied into the
     # Fortran result (post_call) and which the user's final clause releases afterwards
     ("r3own", "const std::string *r3own() +len(5)", "c++"),
+    # the same output arguments after a 'const char *' argument (strings.yaml explicit2 / callback3 style signatures: the
+    # conversion of one character argument does not depend on the ones before it)
+    ("k1s1out", "void k1s1out(const char *key, char *s +intent(out)+charlen(12))", "c"),
+    ("k1s3out", "void k1s3out(const char *key, std::string &s +intent(out))", "c++"),
 ]
 EXTRA_YAML = {"r3own": {"fstatements": {"c_buf": {"final": ["delete {cxx_var};"]}}}}
 
@@ -81,6 +85,10 @@ def subject(lang):
             body.append("%s { vf_as(0, s, -1); }" % proto)
         elif name == "s1out":
             body.append("%s { strcpy(s, vf_next); }" % proto)
+        elif name == "k1s1out":
+            body.append("%s { (void) key; strcpy(s, vf_next); }" % proto)
+        elif name == "k1s3out":
+            body.append("%s { (void) key; s = std::string(vf_next); }" % proto)
         elif name == "s1inout":
             body.append("%s { vf_as(0, s, -1); strcpy(s, vf_next); }" % proto)
         elif name in ("r1", "r1len"):
@@ -127,15 +135,15 @@ def f_driver(lang, bound):
             body += ["  do L = 0, B", "    block", "      character(len=L) :: s", "      do n = 0, L", "        do code = 0, 3**n - 1",
                      "          call fill(s, n, code)", "          call vf_tag(%d, L, n, code)" % rid, "          call %s(s)" % name,
                      "        end do", "      end do", "    end block", "  end do"]
-        elif name in ("s3out", "s3ptrout"):
+        elif name in ("s3out", "s3ptrout", "k1s3out"):
             body += ["  do L = 0, B", "    block", "      character(len=L) :: s", "      do n = 0, B", "        do code = 0, 3**n - 1",
                      "          s(:) = repeat('#', L)", "          call vf_set_next(n, code)", "          call vf_tag(%d, L, n, code)" % rid,
-                     "          call %s(s)" % name, "          call vf_os(0, s, len(s, kind=C_INT))", "        end do", "      end do", "    end block", "  end do"]
-        elif name == "s1out":
+                     "          call %s(%ss)" % (name, "'key ', " if name.startswith("k1") else ""), "          call vf_os(0, s, len(s, kind=C_INT))", "        end do", "      end do", "    end block", "  end do"]
+        elif name in ("s1out", "k1s1out"):
             # the library writes a C string of n characters + NUL into the caller's buffer: L > n
             body += ["  do L = 1, B + 1", "    block", "      character(len=L) :: s", "      do n = 0, L - 1", "        do code = 0, 3**n - 1",
                      "          s(:) = repeat('#', L)", "          call vf_set_next(n, code)", "          call vf_tag(%d, L, n, code)" % rid,
-                     "          call %s(s)" % name, "          call vf_os(0, s, len(s, kind=C_INT))", "        end do", "      end do", "    end block", "  end do"]
+                     "          call %s(%ss)" % (name, "'key ', " if name.startswith("k1") else ""), "          call vf_os(0, s, len(s, kind=C_INT))", "        end do", "      end do", "    end block", "  end do"]
         elif name in ("s1inout", "s3inout"):
             lo = "1" if name == "s1inout" else "0"
             body += ["  do L = %s, B" % lo, "    block", "      character(len=L) :: s", "      do n = 0, %s" % ("L - 1" if name == "s1inout" else "B"),
@@ -186,13 +194,13 @@ def expected(lang, bound):
                         out.append("G %d %d %d %d" % (rid, L, n, code))
                         # trailing blanks trimmed, NUL terminated (char*) / trimmed length (std::string)
                         out.append("A 0 s " + xlib.esc(s.rstrip(" ")))
-        elif name in ("s3out", "s3ptrout"):
+        elif name in ("s3out", "s3ptrout", "k1s3out"):
             for L in range(0, B + 1):
                 for n in range(0, B + 1):
                     for code in range(3 ** n):
                         out.append("G %d %d %d %d" % (rid, L, n, code))
                         out.append("O 0 s " + xlib.esc(content(n, code)[:L].ljust(L)))
-        elif name == "s1out":
+        elif name in ("s1out", "k1s1out"):
             for L in range(1, B + 2):
                 for n in range(0, L):
                     for code in range(3 ** n):
